@@ -6,21 +6,22 @@
  * the capacity preconditions of the oracle contracts at their call sites, ret in {0,1}, no callback for
  * non-NULL arguments, exactly one illegal callback and ret 0 otherwise.
  * Real code: the API functions, commitment/generator load, verify_impl, getheader_impl, pub_expand,
- * rewind_inner.  Oracles (frame contracts): ge_set_xquad, fe_is_square_var, gej_add_ge_var, gej_add_var,
- * gej_double_var, pedersen_ecmult(_small), borromean_verify (its real body: C10.borromean_*), genrand,
- * recover_x/recover_k; sha256 stream contracts; ch32xor leaf contract; byte-reader stubs (C10.leaf_*). */
-#define RP_XQUAD
-#define RP_ISSQUARE
-#define RP_ADD_GE
-#define RP_ADD_VAR
-#define RP_PED_SMALL
-#define RP_PED
-#define RP_BORRO_VERIFY
-#define RP_GENRAND
-#define RP_RECOVER
-#define RP_CH32XOR
+ * rewind_inner, recover_x/recover_k.  Oracles (frame stubs/contracts, assumed_rangeproof.h): ge_set_xquad,
+ * fe_is_square_var, gej_add_ge_var, gej_add_var, gej_double_var, pedersen_ecmult(_small), borromean_verify
+ * (its real body: C10.borromean_*), genrand, scalar_mul, scalar_inverse; sha256 stream stubs; ch32xor
+ * leaf contract; byte-reader stubs (C10.leaf_*). */
+#define RP_STUB_XQUAD
+#define RP_STUB_ISSQUARE
+#define RP_STUB_ADD_GE
+#define RP_STUB_ADD_VAR
+#define RP_STUB_PED_SMALL
+#define RP_STUB_PED
+#define RP_STUB_BORRO_VERIFY
+#define RP_STUB_SHA
+#define RP_STUB_SCALAR_ALG
 #define RP_STUB_READERS
-#include "hash_log.h"
+#define RP_GENRAND
+#define RP_CH32XOR
 #include "assumed_rangeproof.h"
 #include "src/secp256k1.c"
 #include "post.h"
@@ -31,7 +32,7 @@
 static void api_reset(void) {
     g_xq_n = 0; g_xq_hit = 0; g_xq_and = 1; g_xq_watch = -1; g_sq_n = 0; g_sq_hit = 0; g_sq_watch = -1; g_ag_n = 0; g_ag_hit = 0; g_ag_last_inf = 0; g_ag_watch = -1;
     g_ps_n = 0; g_pd_n = 0; g_pd_hit = 0; g_pd_watch = -1; g_bv_n = 0; g_bv_v = 0; g_gr_n = 0; g_rp_k = 0; g_rp_b = 0;
-    g_sb_n = 0; g_sb_hit = 0; g_sb_or = 0; g_sb_wp = NULL; g_fl_n = 0; g_fl_hit = 0; g_fl_and = 1; g_fl_wp = NULL;
+    g_sb_n = 0; g_sb_hit = 0; g_sb_or = 0; rp_watch_scalar(NULL); g_fl_n = 0; g_fl_hit = 0; g_fl_and = 1; rp_watch_fe(NULL);
     HASHLOG_RESET(); g_we = -1; g_wpos = 0;
 }
 
